@@ -1682,6 +1682,10 @@ def search(ctx, budget_s):
             key = f"instance-reuse-after-error-{last['method']}: {r[0]}"
             what = (f"after {nraised} failed call(s) (caught by the caller) in a history of {len(hist)} steps a valid call gives a wrong "
                     f"answer: {r[1]}")
+        elif len(hist) == 1 and not is_plain(setup):
+            key = f"object-setup-{last['method']}: {r[0]}"
+            what = (f"with the objects set up as {norm_setup(setup)} (input container / copy or pickle round trip of the input / "
+                    f"of the BulkObservables object before use) the call goes wrong, while plain objects give the right answer: {r[1]}")
         else:
             key = f"instance-reuse-{last['method']}: {r[0]}"
             what = (f"a BulkObservables object that already served {len(hist) - 1} call(s) gives a wrong answer where "
